@@ -75,7 +75,7 @@ CHECKS = {
             "For every recorded file-system call touching a target (open, write, chmod, rename, close, read) the call is failed with ENOSPC/EIO/EACCES and, separately, the process is killed on entry to it; size limits cut writes short; unparseable sources, rewrite errors, unparseable results, unreadable targets, missing paths and unloadable patches are placed at every position. Afterwards every Go file must hold its original or its complete patched bytes, failures must be reported with path and cause and a non-zero exit status, and other files must be unaffected.",
             "Trusts ptrace/strace injection and prlimit; torn writes inside one write system call and power loss after rename are out of reach.", "DESIGN.md §4 C16"),
     "C17": ("exploration",
-            "real hosts decorated by a comment injector (unique tokens) and patches of 1-3 changes, generated import sections with tokens on every spec, the package line and the cgo preamble under patches that delete / replace / add an import, and runs of up to 170 rewritten declarations around an untouched one; validity predicates on comment multisets, per-declaration comment lists and per-token attachment",
+            "real hosts decorated by a comment injector (unique tokens) and patches of 1-3 changes (hosts with //line directives among them), generated import sections with tokens on every spec, the package line and the cgo preamble under patches that delete / replace / add an import, and runs of up to 170 rewritten declarations around an untouched one; validity predicates on comment multisets, per-declaration comment lists and per-token attachment",
             "No comment may appear more often in the output than in the input; every top-level declaration whose code is unchanged keeps its doc, inner and trailing comments in order; header/package comments and free-standing comments between untouched declarations survive.",
             "Comments are compared by whitespace-normalised text on gofmt-stable inputs; 'nothing was rewritten' is decided by exact equality of the declaration's syntax tree before and after.", "DESIGN.md §4 C17"),
     "C18": ("exploration",
